@@ -106,15 +106,23 @@ int main(int argc, char** argv){
     const std::string cfg = cfgName();
     for(long it = 0; it < iters; ++it){
         const long maxH = Dim == 1 ? 6 : Dim == 2 ? 5 : Dim == 3 ? 4 : 3;
-        const long H = (Per ? 2 : 1) + (long)(rng() % (unsigned long)(maxH - (Per ? 1 : 0)));
+#ifdef DENSEV     // every third iteration: a fully occupied 6^Dim block of a deeper tree (full sibling sets, maximal interaction lists: 1215 sources per target in 4-D)
+        const bool dense = !Per && (it % 3 == 0);
+#else
+        const bool dense = false;
+#endif
+        const long H = dense ? (Dim == 1 ? 7 : Dim == 2 ? 5 : 4) : (Per ? 2 : 1) + (long)(rng() % (unsigned long)(maxH - (Per ? 1 : 0)));
         std::array<Real,Dim> w, c; for(long d = 0; d < Dim; ++d){ w[d] = (Per || it % 2) ? Real(1) : Real(1L << (d + 1)); c[d] = (it % 3) ? Real(0.5) * w[d] : Real(-3) * w[d]; }
         const Conf conf(H, w, c); const long side = 1L << (H - 1);
-        const long N = 1 + (long)(rng() % 14);
+        const long blockSide = side < 6 ? side : 6; long denseN = 1; for(long d = 0; d < Dim; ++d) denseN *= blockSide;
+        const long N = dense ? denseN : 1 + (long)(rng() % 14);
         auto gen = [&](long n){ PosVec p(n); for(long i = 0; i < n; ++i){ for(long d = 0; d < Dim; ++d){ long k = (long)(rng() % (unsigned long)side); if(i > 0 && rng() % 4 == 0) k = (long)std::floor((double(p[i-1][d]) - double(conf.getBoxCorner()[d])) / (double(w[d]) / side));
                     if(k >= side) k = side - 1; const double frac = (rng() % 3 == 0) ? 0.25 : (rng() % 2 ? 0.5 : 0.75); p[i][d] = Data(double(conf.getBoxCorner()[d]) + (double(k) + frac) * (double(w[d]) / side)); }
                 p[i][Dim] = Data(0.1 * double(i + 1)); p[i][Dim + 1] = Data(-1.0 / double(i + 3)); } return p; };
         PosVec pos = gen(N);
-        long bs = AUTOBS ? -1 : 1 + (long)(rng() % 6); const bool ogpp = rng() % 2;
+        if(dense){ std::array<long,Dim> a; for(long d = 0; d < Dim; ++d) a[d] = 2 * (long)(rng() % (unsigned long)((side - blockSide) / 2 + 1));
+            for(long i = 0; i < N; ++i){ long r = i; for(long d = 0; d < Dim; ++d){ const long k = a[d] + r % blockSide; r /= blockSide; pos[i][d] = Data(double(conf.getBoxCorner()[d]) + (double(k) + 0.5) * (double(w[d]) / side)); } } }
+        long bs = AUTOBS ? -1 : (dense ? (it % 2 ? 1000 : 37) : 1 + (long)(rng() % 6)); const bool ogpp = rng() % 2;
         if(AUTOBS && it % 2){ setenv("TBFMM_BLOCK_SIZE", std::to_string(1 + it % 5).c_str(), 1); } else unsetenv("TBFMM_BLOCK_SIZE");
         std::ostringstream ks; ks << cfg << "-seed" << seed << "-it" << it << "-h" << H << "-n" << N << "-bs" << bs << "-og" << ogpp; const std::string key = ks.str();
         rep.scenarios++;
